@@ -190,6 +190,16 @@ impl Ctx {
         let mft = ManifestContent::new(Serial::from(5u64), v.not_before(), v.not_after(), DigestAlgorithm::default(), files.iter())
             .into_manifest(sob(21), &pki.signer, &k0).unwrap();
         add("manifest", "built", mft.to_captured().into_bytes().to_vec());
+        // names that use the whole RFC 9286 alphabet at their first and last positions (hyphen, underscore, digit, upper case)
+        {
+            let names = ["-a.cer", "_b.roa", "9.crl", "a-.mft", "Z_.asa", "Kn3R14fXk-TIr1bhl9Tu2Sr2uhM.gbr", "--.tak", "__.sig"];
+            let files: Vec<FileAndHash<Bytes, Bytes>> = names.iter().map(|n| FileAndHash::new(Bytes::from_static(n.as_bytes()), Bytes::from(crate::cms::sha256(n.as_bytes())))).collect();
+            match guarded(|| ManifestContent::new(Serial::from(6u64), v.not_before(), v.not_after(), DigestAlgorithm::default(), files.iter())
+                .into_manifest(sob(25), &pki.signer, &k0).unwrap().to_captured().into_bytes().to_vec()) {
+                Ok(b) => add("manifest", "built-names", b),
+                Err(m) => build_failures.push(("manifest built-names".to_string(), m)),
+            }
+        }
         // manifest number 0
         match guarded(|| ManifestContent::new(Serial::from(0u64), v.not_before(), v.not_after(), DigestAlgorithm::default(), files.iter().take(1))
             .into_manifest(sob(24), &pki.signer, &k0).unwrap().to_captured().into_bytes().to_vec()) {
